@@ -29,9 +29,18 @@ def witEffectfulCond : Node :=
 /-- `x = - -y;` -/
 def witNestedUnary : Node := wrapF (.assign "=" (.id "x") (.unop "-" (.unop "-" (.id "y"))))
 
-/-- `x = (int)(int) - -y;` (why `NoNestedUnary` removes ALL casts of the right-hand side) -/
+/-- `x = (int)(int) - -y;` -/
 def witNestedUnaryCasts : Node :=
   wrapF (.assign "=" (.id "x") (.cast (.cast (.unop "-" (.unop "-" (.id "y"))))))
+
+/-- `x = !(-y);` -/
+def exNotOfNeg : Node := wrapF (.assign "=" (.id "x") (.unop "!" (.unop "-" (.id "y"))))
+
+/-- `x = !(++y);` -/
+def exNotOfInc : Node := wrapF (.assign "=" (.id "x") (.unop "!" (.unop "++" (.id "y"))))
+
+/-- `void f() { }`: what is left when the single statement is removed -/
+def emptyF : Node := .funcDef (.decl (some "f") (.funcDecl none) none) (.compound (some []))
 
 /-- `x = -(int)(y + z);` (accepted before the unary-operand repair; now rejected) -/
 def witUnaryOfCastExpr : Node :=
@@ -44,50 +53,46 @@ def witIncDecOfConst : Node := wrapF (.assign "=" (.id "x") (.unop "++" (.const 
 def witIllShaped : Node := wrapF .typeDecl
 
 macro "cov_eval" : tactic => `(tactic|
-  simp [witEffectfulCond, witNestedUnary, witNestedUnaryCasts, witUnaryOfCastExpr, witIncDecOfConst, witIllShaped,
-    wrapF, coverage, covN, covList, covSlot, allowRhs, allowOperand, Node.isId, Node.isUnop,
+  simp [witEffectfulCond, witNestedUnary, witNestedUnaryCasts, witUnaryOfCastExpr, witIncDecOfConst,
+    witIllShaped, exNotOfNeg, exNotOfInc, emptyF, wrapF, coverage, covN, covList, covSlot, allowRhs,
+    allowOperand, nestedOk, Gen.incDec, Node.isId, Node.isUnop,
     Node.isBinop, Node.isConst, Node.isCast, Node.rmCast1, Node.rmCast, Gen.binOps, Gen.uOps, bind,
     Except.bind, pure, Except.pure])
 
 macro "unmod_eval" : tactic => `(tactic|
-  simp [witNestedUnary, witNestedUnaryCasts, witIncDecOfConst, witIllShaped, wrapF,
-    Spec.unmodellable, Spec.unmodellableL, Spec.desugar, Node.rmCast, Spec.describe, Node.cls])
+  simp [witIncDecOfConst, witIllShaped, exNotOfNeg, wrapF, Spec.unmodellable,
+    Spec.unmodellableL, Spec.desugar, Spec.hasSideEffect, Node.rmCast, Spec.describe, Node.cls])
 
 /-! the model accepts `if (x = y + z) { z = x + y; }` although the condition has an effect -/
 example : coverage witEffectfulCond = .ok (0, witEffectfulCond) := by cov_eval
 example : Spec.effectfulConds witEffectfulCond = ["If"] := by decide
 
-/-! the model accepts `x = - -y` although `desugar` cannot read it -/
-example : coverage witNestedUnary = .ok (0, witNestedUnary) := by cov_eval
-example : Spec.unmodellable witNestedUnary = ["Assignment(rhs UnaryOp - of UnaryOp)"] := by
-  unmod_eval
-example : ¬ NoNestedUnary witNestedUnary ∧
-    NoIncDecOfConst witNestedUnary ∧ StmtShaped witNestedUnary := by decide
+/-! `x = - -y` (formerly accepted: a nested unary operand is now accepted only under `!` /
+    `sizeof`, and only if it is not `++`/`--`) is charged and removed by the syntax check;
+    the same under two casts -/
+example : coverage witNestedUnary = .ok (1, emptyF) := by cov_eval
+example : coverage witNestedUnaryCasts = .ok (1, emptyF) := by cov_eval
 
-/-! the same under two casts (casts of casts are transparent to the syntax check) -/
-example : coverage witNestedUnaryCasts = .ok (0, witNestedUnaryCasts) := by cov_eval
-example : Spec.unmodellable witNestedUnaryCasts = ["Assignment(rhs UnaryOp - of UnaryOp)"] := by
-  unmod_eval
-example : ¬ NoNestedUnary witNestedUnaryCasts ∧
-    NoIncDecOfConst witNestedUnaryCasts ∧ StmtShaped witNestedUnaryCasts := by decide
+/-! `x = !(-y)` is accepted, and readable: `x` receives a constant -/
+example : coverage exNotOfNeg = .ok (0, exNotOfNeg) := by cov_eval
+example : Spec.unmodellable exNotOfNeg = [] := by unmod_eval
+
+/-! `x = !(++y)` would change `y` on the side: refused -/
+example : coverage exNotOfInc = .ok (1, emptyF) := by cov_eval
 
 /-! `x = -(int)(y + z)` (formerly accepted: the unary operand is now tested with its casts
     removed) is charged and removed by the syntax check -/
-example : coverage witUnaryOfCastExpr =
-    .ok (1, .funcDef (.decl (some "f") (.funcDecl none) none) (.compound (some []))) := by
-  cov_eval
+example : coverage witUnaryOfCastExpr = .ok (1, emptyF) := by cov_eval
 
 /-! the model accepts `x = ++5` although `desugar` cannot read it -/
 example : coverage witIncDecOfConst = .ok (0, witIncDecOfConst) := by cov_eval
 example : Spec.unmodellable witIncDecOfConst = ["Assignment(rhs UnaryOp ++ of Constant)"] := by
   unmod_eval
-example : NoNestedUnary witIncDecOfConst ∧
-    ¬ NoIncDecOfConst witIncDecOfConst ∧ StmtShaped witIncDecOfConst := by decide
+example : ¬ NoIncDecOfConst witIncDecOfConst ∧ StmtShaped witIncDecOfConst := by decide
 
 /-! an ill-shaped tree: a bare `TypeDecl` where a statement should be -/
 example : coverage witIllShaped = .ok (0, witIllShaped) := by cov_eval
 example : Spec.unmodellable witIllShaped = ["TypeDecl"] := by unmod_eval
-example : NoNestedUnary witIllShaped ∧
-    NoIncDecOfConst witIllShaped ∧ ¬ StmtShaped witIllShaped := by decide
+example : NoIncDecOfConst witIllShaped ∧ ¬ StmtShaped witIllShaped := by decide
 
 end Mwp
